@@ -272,8 +272,20 @@ func cmdCheck(args []string) int {
 	solverTime := 0.0
 	coversChecked, coversReach := 0, 0
 	var samples []map[string]any
+	failedFn := map[string]bool{}
+	for _, o := range all {
+		if !o.Cover && o.Status != "unsat" && !(o.Known != nil && o.knownPart == "inside") {
+			failedFn[o.Fn] = true
+		}
+	}
 	for _, o := range all {
 		solverTime += o.TimeS
+		if o.Cover && failedFn[o.Fn] && o.Status == "unsat" {
+			// a violated assertion is assumed afterwards, so later code becomes unreachable:
+			// the cover failure is a consequence of the violation already reported
+			coversChecked++
+			continue
+		}
 		if o.Cover {
 			coversChecked++
 			switch o.Status {
